@@ -1,5 +1,9 @@
 from mindsdb_sql.parser.ast.base import ASTNode
 from mindsdb_sql.parser.utils import indent
+from mindsdb_sql.parser.ast.select.identifier import name_to_string
+
+# the types of objects that are keywords of DESCRIBE
+DESCRIBE_TYPE_KEYWORDS = ('JOB', 'SKILL', 'CHATBOT', 'TRIGGER', 'KNOWLEDGE_BASE', 'PROJECT', 'ML_ENGINE')
 
 
 class Describe(ASTNode):
@@ -28,6 +32,10 @@ class Describe(ASTNode):
     def get_string(self, *args, **kwargs):
         type_str = ''
         if self.type is not None:
-            type_str = f' {self.type}'
+            type_str = self.type
+            if type_str.upper() not in DESCRIBE_TYPE_KEYWORDS:
+                # it is read as a name
+                type_str = name_to_string(type_str)
+            type_str = f' {type_str}'
         return f'DESCRIBE{type_str} {str(self.value)}'
 
